@@ -42,6 +42,7 @@ fn tail_ops() -> Vec<HostOp> {
 
 /// Play `ops`; no panic allowed. If an error was reported, reset and compare with a fresh story.
 pub fn exec_play(case: &J, acc: &mut Acc) -> Result<(), Fail> {
+    inflight(case);
     let (json_text, meta) = case_story(case)?;
     let cfg = cfg_from_json(&case["cfg"]);
     let ops = ops_from_json(&case["ops"]);
@@ -391,6 +392,7 @@ fn mutate_source(src: &str, t: &mut Tape) -> String {
 // ---------------------------------------------------------------------------- driver
 
 pub fn exec(case: &J, acc: &mut Acc) -> Result<(), Fail> {
+    inflight(case);
     match case["kind"].as_str() {
         Some("play") => exec_play(case, acc),
         Some("wrap") => exec_wrap(case, acc),
